@@ -97,6 +97,25 @@ CLAIMED['C04'] = (
     'E1 obligations report EXPLORED-NO-VIOLATION (bug-hunting strength) unless the tree closes; E2 obligations are proofs '
     'over all doubles for the recognised loop shape; loops of other shapes are INCONCLUSIVE, never passed',
     'symbolic execution of the real code (CrossHair primitives + z3) with concrete replay; SMT (z3 QF_FP) obligations generated from loop ASTs')
+CLAIMED['C01'] = (
+    'Symbolic execution of the real conversion paths (TypeTransformer.__call__/apply and converters, Rule.parse, args '
+    'parsers, logical_parse, init_dataclass, FunctionParser) against a conformance oracle built from the same type descriptor '
+    'as the real type (never from the library\'s type objects). Closing obligations: Rule[int](ge=a, lt=b) with unbounded '
+    'symbolic a, b, x and seven container / union shapes over Rule[int](ge=a) with solver-chosen elements and conversion '
+    'flags -- trees exhausted. Exploring obligations: 44 declared types in 7 groups (scalars, temporal, constrained, generics, '
+    'nested, logical, data classes) and a decorated function (arguments seen by the body, return value) on the shared value '
+    'generator -- solver-driven, every path replayed, stated as non-exhaustive.',
+    'sym/* obligations are exhaustive within their bounds; conform/* and function report EXPLORED-NO-VIOLATION',
+    'symbolic execution of the real code (CrossHair primitives + z3) against a descriptor-derived conformance oracle, concrete replay')
+CLAIMED['C03'] = (
+    'Symbolic execution of the real code asserting T(T(x)) == T(x): closing obligations for nine container / staged-union '
+    'shapes over Rule[int](ge=a) (symbolic a, solver-chosen elements and flags) and for every lax constraint -- lax ge/le '
+    'with unbounded symbolic bound and value (exact value asserted), lax length/max_length on symbolic strings and sequences, '
+    'lax multiple_of (picked divisors, unbounded value), lax const/enum, lax unique_items, lax max_digits/decimal_places on '
+    'picked Decimal literals -- each checked for fixed point and for acceptance by the strict form; exploring obligations for '
+    'the 44 declared types of C01.',
+    'Decimal literals are enumerated from a vocabulary (stated); float rounding is not modelled',
+    'symbolic execution of the real code (CrossHair primitives + z3), metamorphic assertion, path-tree exhaustion where stated, concrete replay')
 NOT_APPLICABLE = {}
 
 def main():
